@@ -38,9 +38,12 @@ public:
       // could have gotten a reference to the node on the freelist.
       marked_ptr expected(guard);
       auto next = guard->next_free().load(std::memory_order_relaxed);
-      // since head is only changed via CAS operations it is sufficient to use relaxed order
-      // for this operation as it is always part of a release-sequence headed by (3)
-      if (head.compare_exchange_weak(expected, next, std::memory_order_relaxed)) {
+      // head is only changed via CAS operations, so this operation is always part of a release-sequence headed by (3).
+      // But it has to be an acquire-CAS: the acquire-load (1) may have returned an older incarnation of the same
+      // pointer value (the node was popped, released and pushed again in the meantime - ABA). In that case only this
+      // CAS reads the value written by the latest push (3) and has to synchronize-with it, otherwise re-initializing
+      // the node races with the accesses of the thread that released it.
+      if (head.compare_exchange_weak(expected, next, std::memory_order_acquire, std::memory_order_relaxed)) {
         assert((guard->ref_count().load(std::memory_order_relaxed) & RefCountClaimBit) != 0 &&
                "ClaimBit must be set for a node on the free list");
 
